@@ -84,10 +84,10 @@ ASSUMPTIONS = [
     "relative to the healthy set survives collections (C17_healthy_invariant_survives_collections); the evaluation chain in states "
     "with dead owners is not proved; a Computed that read a collected owner stays stale: known finding "
     "C17/Computed/stale-after-parent-collected (refutation witness C17_never_stale_refuted)",
-    "finding candidates recorded, not judged (keys under cand/): a rejected installation leaves the Computed installed and later "
-    "reads return None (C17_rejected_installation_then_read_returns_none); after a user exception inside a function later reads "
-    "serve the cached value instead of raising; an owner whose truth value is False is taken for collected and its dependants "
-    "re-run on every dirty check (proposed one-token repair fixes/C17-5)",
+    "observations recorded, not judged: a rejected installation leaves the Computed installed and later reads return None "
+    "(C17_rejected_installation_then_read_returns_none); after a user exception inside a function later reads serve the cached value "
+    "instead of raising (cand/ key; functions that raise are outside the quantifier).  Judged since fix C17-5 is committed: an owner "
+    "whose truth value is False must not be taken for collected (key C17/Computed.__call__/falsy-owner-treated-as-collected)",
 ]
 SHRINK = True
 
@@ -418,18 +418,18 @@ def _cur(env, src):
         return _GONE
 
 
-CAND_FALSY = "cand/C17/Computed.__call__/falsy-owner-treated-as-collected"
+KEY_FALSY = "C17/Computed.__call__/falsy-owner-treated-as-collected"   # repaired (fix C17-5): a verdict if it returns
 CAND_EXC = "cand/C17/Computed.__call__/exception-in-function-then-cached-value-served"
 
 
 def _fail(env, key, what):
-    """finding CANDIDATES (report, round 5) are recorded under a key the framework does not report: symptoms that
-    follow from a user-code exception inside a function earlier in the history, and re-runs caused by an owner
-    whose truth value is False"""
+    """symptoms that follow from a user-code exception inside a function earlier in the history are an OBSERVATION
+    (functions that raise are outside C17's quantifier) recorded under a cand/ key the framework does not report;
+    a re-run caused by an owner whose truth value is False is the repaired defect C17-5: a verdict"""
     if getattr(env, "exc_seen", False) and key.startswith("C17/"):
         key = CAND_EXC
     elif getattr(env, "falsy", None) and "spurious-recompute" in key:
-        key = CAND_FALSY
+        key = KEY_FALSY
     env.failures.append({"key": key, "op": env.opi, "what": what})
 
 
@@ -832,6 +832,10 @@ def _act(a):
 
 
 def coq_case(case):
+    if case.get("het"):
+        # oracle-only history (values the Z-valued model cannot represent): never sent to the model; a replay file of
+        # such a history asks for model observations all the same - give it the empty case
+        return "{| c_init := []; c_comps := []; c_ops := [] |}"
     init = L.lst([L.zlist(v) for v in case["init"]])
     comps = L.lst([f"(mkdef {L.z(c['owner'])} {_expr(c['expr'])})" for c in case["comps"]])
     ops = []
@@ -899,10 +903,10 @@ LEVEL_TEXT = ("Machine-checked Coq theorems (37 statements incl. 13 non-vacuity 
 LEVEL_NOTE = ("Theorems are about the model; the tie to the code is T1 (translated control flow with a trusted statement dictionary, "
               "skeleton for the weak-reference loop nest, try/finally and Computable.__set__) and T2 (differential testing).  Not proved: "
               "Computed.__call__ in states with dead owners (histories continuing after a collection), hence the _partial names.  "
-              "Oracle only: non-int values, user exceptions in functions, falsy owners, class layouts.  Defects: 4 repaired "
+              "Oracle only: non-int values, user exceptions in functions, falsy owners, class layouts.  Defects: 5 repaired "
               "(cached parent value registered; read set cleared inside an evaluation; parents of earlier evaluations kept; nested "
-              "comparison registers on the enclosing Computed), 1 known finding (stale after a parent owner is collected), 3 finding "
-              "candidates recorded under cand/ keys.  Trusted: Coq kernel, translator + dictionary, driver/observer, CPython "
+              "comparison registers on the enclosing Computed; falsy owner taken for collected), 1 known finding (stale after a parent "
+              "owner is collected), 2 observations (rejected installation stays installed; cached value served after a user exception).  Trusted: Coq kernel, translator + dictionary, driver/observer, CPython "
               "dict/weakref/gc semantics as modelled.  No axioms.")
 TECHNIQUE = ("Coq proof (fuel-indexed evaluation, invariant over all histories, second induction for run counts, healthy-set invariant "
              "for collections; closed under the global context) + code-level T1 (statement translator, bridge lemmas, normalised "
